@@ -3,6 +3,8 @@
 package cl
 
 import (
+	"math/big"
+
 	"github.com/ohler55/slip"
 )
 
@@ -50,24 +52,19 @@ type Dpb struct {
 func (f *Dpb) Call(s *slip.Scope, args slip.List, depth int) (result slip.Object) {
 	// Helper functions are defined in deposit-field.go.
 	slip.CheckArgCount(s, depth, f, args, 3, 3)
-	newbyte, nneg := ToUnsignedByte(s, args[0], "newbyte", depth)
-	integer, neg := ToUnsignedByte(s, args[2], "integer", depth)
+	newbyte := integerArg(s, args[0], "newbyte", depth)
+	integer := integerArg(s, args[2], "integer", depth)
 	size, pos := byteSpecArg(s, args[1], depth)
 
-	integer = integer.Dup()
-	max := uint(newbyte.Size())
+	// The low size bits of newbyte shifted to the position of the byte
+	// replace the byte in integer.
+	var (
+		field big.Int
+		bi    big.Int
+	)
+	mask := byteMask(size)
+	_ = bi.AndNot(integer, field.Lsh(mask, uint(pos)))
+	_ = bi.Or(&bi, field.Lsh(field.And(newbyte, mask), uint(pos)))
 
-	for i := uint(0); i < uint(size); i++ {
-		off := i + uint(pos)
-		if max <= i {
-			if nneg {
-				integer.SetBit(off, true)
-			} else {
-				integer.SetBit(off, false)
-			}
-		} else {
-			integer.SetBit(off, newbyte.GetBit(i))
-		}
-	}
-	return convertUnsignedByte(integer, args[2], neg)
+	return integerResult(&bi, args[2])
 }
